@@ -409,3 +409,139 @@ class CtxModelInv:
         if "THM-VIOLATED" in out or "NOT-PRESERVED" in out or out.startswith("?") or "MODEL-" in out:
             return (None, "model self-check: %s" % out[:300])
         return None
+
+
+# ------------------------------------------------------------------------------------------------
+# richer modules: identities derived across modules, submodules with their own imports, augments (also into augments),
+# deviations. No model counterpart; the property is checked on the library (before/after + shadow context).
+# ------------------------------------------------------------------------------------------------
+RNAMES = "abcdef"
+
+
+def rich_repo(rng):
+    """entries name -> dict; every name has the single revision 1 and every import names it (no latest-revision games, so
+    nothing of the known hidden-flag finding can show up)"""
+    nn = rng.choice([3, 4, 4, 5, 6])
+    names = list(RNAMES[:nn])
+    ents = []
+    for i, nm in enumerate(names):
+        later = names[i + 1:]
+        imps = [t for t in later if rng.random() < 0.5][:3]
+        extras = []
+        for k, t in enumerate(imps):
+            if rng.random() < 0.5:
+                extras.append("d%d" % k)
+            if rng.random() < 0.4:
+                extras.append("a%d" % k)
+            if rng.random() < 0.2:
+                extras.append("v%d" % k)
+        ents.append(dict(name=nm, imps=imps, extras=extras, feats=gen_feats(rng) if rng.random() < 0.5 else [], fault=0))
+    # augments into the node another import adds to a third module
+    for e in ents:
+        for k, t in enumerate(e["imps"]):
+            for j, x in enumerate(e["imps"]):
+                xe = next(y for y in ents if y["name"] == x)
+                if j != k and t in xe["imps"] and ("a%d" % xe["imps"].index(t)) in xe["extras"] and rng.random() < 0.6 \
+                        and sum(1 for z in e["extras"] if z[0] == "n") < 2:
+                    e["extras"].append("n%d%d" % (k, j))
+    # submodules importing a later module (a module without imports of its own may get one too)
+    for i, e in enumerate(ents):
+        later = names[i + 1:]
+        if later and rng.random() < (0.5 if not e["imps"] else 0.2):
+            e["extras"].append("s" + rng.choice(later))
+    for e in ents:
+        if rng.random() < 0.25:
+            e["fault"] = rng.choice(FAULTS)
+    return ents
+
+
+def rich_repo_str(ents):
+    out = []
+    for e in ents:
+        out.append("%s1:%s:%s:%d:%s" % (e["name"], ",".join(t + "1" for t in e["imps"]) or "-", feats_str(e["feats"]),
+                                        e["fault"], ",".join(e["extras"]) or "-"))
+    return ";".join(out)
+
+
+def gen_rich_script(rng):
+    ents = rich_repo(rng)
+    ops = []
+    for _ in range(rng.randrange(3, 9)):
+        r = rng.random()
+        i = rng.randrange(len(ents))
+        e = ents[i]
+        if r < 0.5:
+            flt = str(rng.choice([0] + FAULTS + [4, 4])) if rng.random() < 0.4 else "-"
+            ops.append("P %d %s %s" % (i, flt, gen_sel(rng, e["feats"])))
+        elif r < 0.65:
+            ops.append("L %s 1 %s" % (e["name"], gen_sel(rng, e["feats"])))
+        else:
+            ops.append("I %s 1 %s" % (e["name"], gen_sel(rng, e["feats"], bad=0.02)))
+        # what the call dragged in (and, when it failed, had to let go again) is implemented by later correct calls
+        if r < 0.65 and e["imps"] and rng.random() < 0.6:
+            for t in rng.sample(e["imps"], rng.randrange(1, len(e["imps"]) + 1)):
+                ops.append("I %s 1 ~" % t)
+    return "\t".join(["ctxr", "0", rich_repo_str(ents)] + ops)
+
+
+def rich_templates(rng):
+    """families aimed at the links a rollback has to undo: (1) a module that is created and rolled back whose identities
+    (own or of its submodule) derive from a module that stays; (2) modules that are implemented only by the failing call
+    (targets of its augments/deviations, in either order) and are implemented by a later correct call"""
+    out = []
+    for link in ("a0", "v0", "a0,d0"):
+        for mex, fault in (("n01", 4), ("a0,a1", 4), ("n01,d0", 3), ("a0,n01", 2), ("v0,a1", 4)):
+            # p (implemented) imports t and x; x augments/deviates t; m drags both in and fails; then t (or x) is implemented
+            repo = "t1:-:-:0:-;x1:t1:-:0:%s;p1:t1,x1:-:0:-;m1:t1,x1:-:%d:%s" % (link, fault, mex)
+            for later in (["I t 1 ~"], ["I x 1 ~"], ["I t 1 ~", "I x 1 ~"], ["P 3 0 ~"]):
+                out.append("\t".join(["ctxr", "0", repo, "P 2 - ~", "P 3 - ~"] + later))
+    for gimps, gex in (("-", "sb"), ("-", "sb,s b".replace(" ", "")[:2]), ("c1", "sb,d0"), ("b1", "d0")):
+        for fault in (2, 3, 4):
+            # g (no import of its own / with imports) derives identities from b through its submodule or itself; it is rolled back
+            # because it fails itself or because the module importing it fails
+            repo = "b1:-:-:0:-;c1:-:-:0:-;g1:%s:-:0:%s;m1:b1,g1:-:%d:d0;h1:g1,e1:-:0:-" % (gimps, gex, fault)
+            out.append("\t".join(["ctxr", "0", repo, "P 0 - ~", "P 3 - ~", "P 2 - ~"]))
+            out.append("\t".join(["ctxr", "0", repo, "P 0 - ~", "P 4 - ~", "I b 1 ~", "P 2 %d ~" % fault, "P 2 0 ~"]))
+    return out
+
+
+class CtxRich:
+    """C09 on the implementation with richer modules (identities derived across modules, submodules with their own imports,
+    augments - also into augmented nodes -, deviations): after a failing operation the modules, features, identity derived[]
+    sets, augmented_by / deviated_by links and compiled YANG prints are what they were, and every successful operation gives
+    what a second context that only saw the successful operations gives"""
+    name = "ctx-rich"
+    driver = "t_ctx"
+    quick_sanitize = False
+    last_err = ""
+
+    def gen(self, rng, tier, scale=1.0):
+        L = rich_templates(rng)
+        for _ in range(int((30000 if tier == "thorough" else 1500) * scale)):
+            L.append(gen_rich_script(rng))
+        return L
+
+    def judge(self, line, out):
+        ops = line.split("\t")[3:]
+        if out.startswith("CRASH(") or out == "TIMEOUT":
+            return (None, "the script ends with %s %s" % (out, (self.last_err or "")[-300:]))
+        segs = out.split(" | ")
+        if out.startswith("?") or len(segs) != len(ops):
+            return (None, "driver protocol: %s" % out[:100])
+        prev = None
+        for i, (op, sg) in enumerate(zip(ops, segs)):
+            if sg.startswith("?"):
+                return (None, "driver protocol: %s" % sg)
+            if " S" not in sg or ";" not in sg:
+                # e.g. bytes of a freed identity name
+                return (None, "op %d (%s): malformed observable %r" % (i, op, sg[:200]))
+            body, sh = sg.rsplit(" S", 1)
+            res, obs = body.split(";", 1)
+            if res == "E" and prev is not None and obs != prev:
+                return (None, "op %d (%s) failed and the context is not what it was: before %s after %s" % (i, op, prev, obs))
+            if res == "E" and prev is None and obs.split(";")[0]:
+                return (None, "op %d (%s) failed on the empty context and left %s" % (i, op, obs))
+            if res == "ok" and sh == "!":
+                return (None, "op %d (%s) succeeded but the context differs from one that saw only the successful operations: %s" % (i, op, obs))
+            prev = obs
+        return None
